@@ -323,11 +323,18 @@ def r5_mapping(ctx):
     ctx.check(any(callee_decl(t).endswith("MapEntities::map_entities") for _, t in dm.calls()), "default_deserialize_mapped/maps", site_of(dm), "mapped events are not mapped")
 
 
+def r20_unconditional_mutators(ctx):
+    """Mutators this property relies on always perform their effect (shared table in rules/mutators.py)."""
+    import rules.mutators as mutators
+    mutators.run_for(ctx, "C04")
+
+
 RULES = [
     ("C04.R1", "server: events are flushed after replication of the same tick, only on ticks", r1_server_order, 8, ["default", "all-features", "server-only"]),
     ("C04.R2", "events are stamped with the recipient's update tick, bumped exactly when an update message is sent", r2_stamping, 10, ["default", "all-features", "server-only"]),
     ("C04.R3", "client gate: deliver only independent / not-ahead / released-from-queue events; ahead events are queued", r3_client_gate, 10, ["default", "all-features", "client-only"]),
     ("C04.R4", "client: events after replication, triggers after events, gate uses the current update tick", r4_client_order, 4, ["default", "all-features", "client-only"]),
     ("C04.R5", "events with unmappable entities are refused", r5_mapping, 6, ["default", "all-features"]),
+    ("C04.R20", "mutators this property relies on always perform their effect (rules/mutators.py): no early return, no guard outside the allowed set", r20_unconditional_mutators, 3, ["default", "all-features"]),
 ]
 THOROUGH_CONFIGS = ["default", "all-features", "server-only", "client-only"]
